@@ -382,6 +382,7 @@ int main(int argc, char **argv)
   vr::sample("frame:vec3fa:4,21 and lookat:AffineSpace3f:5,40,10  (axes, origin, orthonormality, orientation)");
   vr::sample("lin2pair:LinearSpace2f:1,2,-0.5,1,2,-1,0.5,1  (all ordered pairs of kept 2x2 matrices)");
   vr::note("observation (not alarmed, not a run-time behaviour): AffineSpaceT::rotate(const Vector &p, const QuaternionT &q) does not compile when instantiated - 'translate(+p) * L(q) * translate(-p)' has no AffineSpaceT*LinearSpace3 operator; rotate(p,u,r) and rotate(q) are covered instead");
+  vr::note("observation (not alarmed, not run-time behaviours): these declared operators cannot be instantiated on this tree - AffineSpaceT/scalar, AffineSpaceT*=scalar, AffineSpaceT/=scalar (no AffineSpaceT*scalar operator for 'a * rcp(b)' / 'a * b'); LinearSpace2/3::operator Scalar*() (static_cast from Vector* to Scalar*); double*quatf and quatf*double (no QuaternionT<double>(QuaternionT<float>) constructor). Every other operator of the three headers is exercised.");
   vr::note("largest error relative to its tolerance: " + std::to_string(vr::S().stats["max_err_permille_of_tolerance"] / 10.0) + " % at " + global_worst());
   vr::stat("traces", vr::S().stats["states"]);
   return vr::finish();
